@@ -82,6 +82,19 @@ CHECKS.update({
          "DESIGN.md §3 C10"),
 })
 
+CHECKS.update({
+ "C06": ("E3 pure driver (config) + E1 vmesh (router paths, fake tun)", "exploration",
+         "runtime monitor: reference firewall/isolation oracle written from the statement vs CheckInboundTrafficPolicy over the full protocol x port x sender grid of seeded configurations, and vs what reaches a fake tun device / leaves on virtual links when real sealed traffic frames and local packets are handled by the real router",
+         "Seeded service/friend/isolation configurations; every protocol 0..255 x interesting ports x senders through the policy function; real end-to-end sessions, sealed traffic frames with honest, spoofed-inner-source, foreign-inner-destination and corrupted variants delivered to a victim router whose local interface is observable; local packets with own/foreign sources to friend/non-friend/non-Mycoria/multicast destinations and malformed ones through the real tun handler with all outgoing frames observed.",
+         "API-address packets (need gVisor netstack) not exercised; the admit-replies-of-allowed-connections behaviour is kept out by using fresh victims and 5-tuples.",
+         "DESIGN.md §3 C06"),
+ "C14": ("E1 vmesh", "exploration",
+         "runtime monitor: schedule enumeration by re-execution (deliver / drop / deliver-twice of every in-flight hello message, initiator sets, retries after logical expiry) over real routers; quiescent-state oracle: both set up => traffic sealed by either unseals at the other; bounded-progress: one clean retry completes",
+         "Two real routers (direct and via a relay, both address orders); exhaustive DFS over all schedules without retries, budgeted DFS plus seeded sampling with retries at every position; every schedule ends in the oracle 'not (both established and undecryptable)' plus 'a clean new setup by a side that is not set up completes'.",
+         "Timer expiry is simulated by the hook VerifExpireHello; schedules with retries are budgeted/sampled.",
+         "DESIGN.md §3 C14"),
+})
+
 NOT_YET = "check not implemented yet in this revision of /verif (work in progress; see DESIGN.md §8)"
 
 def main():
